@@ -29,13 +29,13 @@ CHECKS = {
             "distinct node names are counted, no cache attached; D of large pairs is computed by the harness"),
     "C10": (MC, "7.C10", "TLC exhaustive run of MastCursor.tla (tree x start x every Forward/Backward sequence: Agrees, NoFailure; SeekOK for every probe of every layer) + TLC validation of recorded cursor walks and SeekIter runs against the sorted sequence (TraceCursor.tla)",
             "off-end is absorbing; the sorted sequence comes from the driver's bookkeeping"),
-    "C03": (MC, "7.C03", "TLC exhaustive run of Flush.tla (main / dispatcher / workers / reader as separate actions: every interleaving, completion order, failure subset and retry within the constants; liveness under weak fairness); the same invariants derived from an inductive invariant with Apalache (FlushInd.tla: a fixed number of nodes, every gate size, failure budget, number of attempts, clean set, cache contents) + MakeRoot executions of the real code under a controlled Persist, schedules enumerated depth-first by re-execution, recorded and validated by TLC against TraceFlush.tla",
+    "C03": (MC, "7.C03", "TLC exhaustive run of Flush.tla (main / dispatcher / workers / reader as separate actions: every interleaving, completion order, failure subset and retry within the constants; liveness under weak fairness); the same invariants derived from an inductive invariant with Apalache (FlushInd.tla: a fixed number of nodes, every gate size, failure budget, number of attempts, clean set, cache contents) and, in the thorough tier, proved inductive for every number of nodes with TLAPS (FlushProof.tla, 1429 obligations) + MakeRoot executions of the real code under a controlled Persist, schedules enumerated depth-first by re-execution, recorded and validated by TLC against TraceFlush.tla",
             "schedules act through the caller-supplied Persist and Marshal only; unrealisable decisions end a branch; exhaustive within the constants"),
     "C12": ("fault_enumeration", "7.C12", "enumeration on the real code of every fallible call position (Persist.Load, KeyCompare, Marshal, Unmarshal; pairs for comparison callbacks) of every operation on prepared trees; each run (result, tree observed through a fault-free view, retry) validated by TLC against TraceFaults.tla, whose normal outcomes come from the map model, ModelDiff and the walk oracle",
             "positions come from a dry run on an identically prepared tree; panics under a fault are counted, not judged; two recorded findings (Delete/shrink, Insert/grow) are matched by their input class"),
-    "C17": ("fault_enumeration", "7.C17", "the real file.Persist.Store run in a child process whose write is cut at every byte offset (killed inside write(2) by RLIMIT_FSIZE, or failing with EFBIG), then load / re-store / load; the same for MakeRoot of whole trees over the file store (retried in the same process after the error, persisted again after restart, every reachable name compared with its bytes); every run validated by TLC against TraceFile.tla; design level: TLC exhaustive run of FileStore.tla (syscall granularity, crashes, I/O errors, concurrent writers)",
+    "C17": ("fault_enumeration", "7.C17", "the real file.Persist.Store run in a child process whose write is cut at every byte offset (killed inside write(2) by RLIMIT_FSIZE, or failing with EFBIG), then load / re-store / load; the same for MakeRoot of whole trees over the file store (retried in the same process after the error, persisted again after restart, every reachable name compared with its bytes); every run validated by TLC against TraceFile.tla; design level: TLC exhaustive run of FileStore.tla (syscall granularity, crashes, I/O errors, concurrent writers); the same invariants for every set of writers, node length and number of faults by a TLAPS proof of an inductive invariant (FileStoreProof.tla)",
             "a crash is a process killed inside write(2); page-cache / fsync / directory-entry durability are assumptions of FileStore.tla"),
-    "C18": (MC, "7.C18", "TLC exhaustive run of Store.tla (3 clients, begin/end steps, injected errors, S3 key mapping; the mis-mapped variants must fail) + recorded Store/Load/concurrent-writer runs on the in-memory, file and S3 backends validated by TLC against TraceStore.tla",
+    "C18": (MC, "7.C18", "TLC exhaustive run of Store.tla (3 clients, begin/end steps, injected errors, S3 key mapping; the mis-mapped variants must fail); the same invariants for every set of names and clients by a TLAPS proof of an inductive invariant (StoreProof.tla) + recorded Store/Load/concurrent-writer runs on the in-memory, file and S3 backends validated by TLC against TraceStore.tla",
             "S3 is represented by a fake S3Interface recording bucket and key; file errors are injected through a missing base path"),
     "C08": (MC, "7.C08", "every Persist.Store call of every driven history validated by TLC against TraceC08.tla, which learns the relations name->bytes, node->bytes, bytes->node per configuration and requires them to stay functions; names recomputed by an independent BLAKE2b-256/base64url",
             "bytes are represented by their digest under the harness's independent implementation; the digest function itself is not transcribed into TLA+ (DESIGN 9)"),
